@@ -512,37 +512,53 @@ class Fn:
                 if proj or l in vol:
                     continue
                 # look through whole-local moves, `Try::branch(x)` (Continue <-> Ok/Some, Break <-> Err/None) and a payload read
-                # back from a value that was wrapped in this body (`(Poll::Ready(x) as Ready).0`)
-                translate = None
+                # back from a value that was wrapped in this body (`(Poll::Ready(x) as Ready).0`, also several layers deep)
                 whole = lambda loc: [d for d in self.defs().get(loc, []) if d[1] in ("assign", "call", "resume")]
+                state = {"translate": None}
+                def resolve(loc, depth=0):
+                    """the local whose definitions decide the variant of `loc`"""
+                    for _ in range(10):
+                        if loc in vol or depth > 6:
+                            return loc
+                        dd = whole(loc)
+                        if len(dd) != 1:
+                            return loc
+                        dsite, kind, st = dd[0]
+                        if kind == "assign" and st["rv"]["k"] == "use" and op_place(st["rv"]["op"]) is not None:
+                            pl = op_place(st["rv"]["op"])
+                            if not pl[1]:
+                                loc = pl[0]
+                                continue
+                            if len(pl[1]) == 2 and pl[1][0].startswith("d:") and pl[1][1].startswith("f:0"):
+                                base = resolve(pl[0], depth + 1)
+                                if base in vol:
+                                    return loc
+                                bds = whole(base)
+                                vname_ = pl[1][0].split(":")[2] if len(pl[1][0].split(":")) > 2 else None
+                                same = [d_ for d_ in bds if d_[1] == "assign" and d_[2]["rv"]["k"] == "agg" and d_[2]["rv"].get("variant") == vname_]
+                                others_ok = all((d_[1] == "assign" and d_[2]["rv"]["k"] == "agg" and d_[2]["rv"].get("variant") not in (None, vname_)) or
+                                                (d_[1] == "call" and ((((d_[2].get("func") or {}).get("fn") or {}).get("def") or "").endswith("FromResidual::from_residual")) and vname_ in ("Ok", "Some"))
+                                                for d_ in bds if d_ not in same)
+                                if len(same) == 1 and others_ok and len(same[0][2]["rv"].get("ops", [])) == 1:
+                                    ip = op_place(same[0][2]["rv"]["ops"][0])
+                                    if ip is not None and not ip[1]:
+                                        loc = ip[0]
+                                        continue
+                            return loc
+                        if kind == "call":
+                            fnc = st.get("func") or {}
+                            nm = ((fnc.get("fn") or {}).get("def") or "") if fnc.get("k") == "const" else ""
+                            if re.search(r"ops::Try>?::branch$|ops::try_trait::Try::branch$", nm) and st.get("args") and state["translate"] is None and depth == 0:
+                                ap = op_place(st["args"][0])
+                                if ap is not None and not ap[1]:
+                                    state["translate"] = {"Continue": ("Ok", "Some"), "Break": ("Err", "None")}
+                                    loc = ap[0]
+                                    continue
+                        return loc
+                    return loc
+                l = resolve(l)
+                translate = state["translate"]
                 ds = whole(l)
-                for _ in range(8):
-                    if len(ds) != 1:
-                        break
-                    dsite, kind, st = ds[0]
-                    nxt = None
-                    if kind == "assign" and st["rv"]["k"] == "use" and op_place(st["rv"]["op"]) is not None:
-                        pl = op_place(st["rv"]["op"])
-                        if not pl[1]:
-                            nxt = pl[0]
-                        elif len(pl[1]) == 2 and pl[1][0].startswith("d:") and pl[1][1].startswith("f:0") and pl[0] not in vol:
-                            bds = whole(pl[0])
-                            if len(bds) == 1 and bds[0][1] == "assign" and bds[0][2]["rv"]["k"] == "agg" and len(bds[0][2]["rv"].get("ops", [])) == 1:
-                                ip = op_place(bds[0][2]["rv"]["ops"][0])
-                                if ip is not None and not ip[1]:
-                                    nxt = ip[0]
-                    elif kind == "call":
-                        fnc = st.get("func") or {}
-                        nm = ((fnc.get("fn") or {}).get("def") or "") if fnc.get("k") == "const" else ""
-                        if re.search(r"ops::Try>?::branch$|ops::try_trait::Try::branch$", nm) and st.get("args"):
-                            ap = op_place(st["args"][0])
-                            if ap is not None and not ap[1] and translate is None:
-                                nxt = ap[0]
-                                translate = {"Continue": ("Ok", "Some"), "Break": ("Err", "None")}
-                    if nxt is None or nxt in vol:
-                        break
-                    l = nxt
-                    ds = whole(l)
                 if len(ds) < 2:
                     continue
                 byv = {}
